@@ -83,6 +83,22 @@ where
         Run { decisions, verdict: verdict_of(res), obs: out.into_inner().unwrap() }
     }
 
+    /// One instance replaying `prefix` with a driver that tolerates a changed decision tree;
+    /// returns the run and, if the recorded choices no longer fit, how they diverged.
+    pub fn run_tolerant(&self, prefix: Vec<usize>, exhaustive_flag: bool) -> (Run, Option<String>) {
+        let d = RecDriver::tolerant(prefix);
+        let out: Mutex<Option<Obs>> = Mutex::new(None);
+        let this = AssertUnwindSafe((self, &out));
+        let (d, res) = self.compiled.verif_run_with_driver(Box::new(d), exhaustive_flag, false, async || {
+            let (s, out) = *whole(&this);
+            let o = (s.body)(&s.ports).await;
+            *out.lock().unwrap() = Some(o);
+        });
+        let decisions = d.log();
+        let diverged = d.tol.and_then(|t| t.diverged);
+        (Run { decisions, verdict: verdict_of(res), obs: out.into_inner().unwrap() }, diverged)
+    }
+
     pub fn run_prefix(&self, prefix: Vec<usize>, exhaustive_flag: bool) -> Run {
         let mut ch = Chooser::replay(prefix);
         self.run_driver(&mut ch, true, exhaustive_flag)
